@@ -445,7 +445,7 @@ pub fn h_filter<M: VMode>() {
                         vassert!(e.start == s0.pos && e.end == a.exit_pos, "C06/filter.error-span-is-the-rejected-match");
                         // "found is the token at the start of the span and is None only at the end of input"
                         let here = if s0.pos < s0.len { Some(inp.cache.tok_at(s0.pos) as u32) } else { None };
-                        vassert!(e.found == here, "C06/filter.found-is-the-token-at-the-start-of-the-span");
+                        vassert_finding!(e.found == here, "C06/filter.found-is-the-token-at-the-start-of-the-span");
                     }
                 }
             } else {
